@@ -175,6 +175,37 @@ fn run_extdel(keep: u64, msg: usize) -> Option<String> {
 }
 /// entries that carry the prefix but are not log files (sub-directories, symbolic links) are there before the writer starts: they are
 /// neither counted nor deleted, the writer starts, keeps running and the newest event is on disk within the keep-size
+/// files of an earlier run that are older than the keep-age -- one with lines in it, one empty (a run that stopped right after
+/// creating its file): after an event has been written none of them is left, whatever its size
+fn run_expired() -> Option<String> {
+    use servlin::log::internal::LogEvent;
+    use servlin::log::{tag, LogFileWriter};
+    let dir = scratch();
+    let desc = "expired keepage=60".to_string();
+    let fail = |m: String| { let _ = std::fs::remove_dir_all(&dir); Some(format!("{desc} {m}")) };
+    let old_time = SystemTime::now() - Duration::from_secs(3 * 3600);
+    for (name, content) in [("log.20200101T000000Z-0", "{\"old\":0}\n"), ("log.20200101T000001Z-0", ""), ("log.20200101T000002Z-0", "{\"old\":2}\n")] {
+        let path = dir.join(name);
+        std::fs::write(&path, content).unwrap();
+        let f = std::fs::OpenOptions::new().write(true).open(&path).unwrap();
+        if f.set_modified(old_time).is_err() { let _ = std::fs::remove_dir_all(&dir); return None; }   // a file system without settable times: nothing to explore
+    }
+    let sender = match LogFileWriter::new_builder(dir.join("log"), 1 << 20).with_max_keep_age(Duration::from_secs(60)).start_writer_thread() {
+        Ok(s) => s, Err(e) => return fail(format!("expected=writer-starts actual={e:?}")) };
+    for i in 0..2 { if sender.send(LogEvent::new(servlin::log::Level::Info, tag("msg", format!("{i:08}")))).is_err() { return fail(format!("expected=writer-keeps-running actual=writer thread gone at event {i}")); } }
+    let t0 = std::time::Instant::now();
+    loop {
+        let seen = std::fs::read_dir(&dir).unwrap().map(|e| e.unwrap()).any(|e| String::from_utf8_lossy(&std::fs::read(e.path()).unwrap_or_default()).contains("\"msg\":\"00000001"));
+        if seen { break; }
+        if t0.elapsed() > Duration::from_secs(20) { return fail("expected=last event written actual=not on disk after 20 s".into()); }
+        std::thread::sleep(Duration::from_millis(10));
+    }
+    let left: Vec<String> = std::fs::read_dir(&dir).unwrap().map(|e| e.unwrap().file_name().to_string_lossy().to_string()).filter(|n| n.starts_with("log.20200101")).collect();
+    drop(sender);
+    if !left.is_empty() { return fail(format!("expected=no file older than the keep-age after an event actual={left:?}")); }
+    let _ = std::fs::remove_dir_all(&dir);
+    None
+}
 fn run_foreign(keep: u64, msg: usize) -> Option<String> {
     use servlin::log::internal::LogEvent;
     use servlin::log::{tag, LogFileWriter};
@@ -211,6 +242,9 @@ fn main() {
     let args: Vec<String> = std::env::args().collect();
     if args.len() >= 3 && args[1] == "replay" {
         let w = args[2..].join(" ");
+        if w.starts_with("expired ") {
+            match run_expired() { Some(m) => { println!("WITNESS {m}"); std::process::exit(1) } None => { println!("OK witness no longer fails"); std::process::exit(0) } }
+        }
         if w.starts_with("foreign ") {
             let g = |k: &str| -> u64 { w.split(&format!("{k}=")).nth(1).unwrap().split(' ').next().unwrap().parse().unwrap() };
             match run_foreign(g("keep"), g("msg") as usize) { Some(m) => { println!("WITNESS {m}"); std::process::exit(1) } None => { println!("OK witness no longer fails"); std::process::exit(0) } }
@@ -262,6 +296,7 @@ fn main() {
     }
     n += 1; if let Some(m) = run_extdel(140000, 1000) { if found.len() < 5 { found.push(m) } }
     for keep in [1500u64, 20000] { n += 1; if let Some(m) = run_foreign(keep, 100) { if found.len() < 5 { found.push(m) } } }
+    { n += 1; if let Some(m) = run_expired() { if found.len() < 5 { found.push(m) } } }
     println!("EVALUATED {n}");
     for f in &found { println!("WITNESS {f}"); }
     std::process::exit(if found.is_empty() { 0 } else { 1 });
